@@ -3,6 +3,8 @@
 package cl
 
 import (
+	"strings"
+
 	"github.com/ohler55/slip"
 )
 
@@ -43,8 +45,29 @@ func (f *Boundp) Call(s *slip.Scope, args slip.List, depth int) slip.Object {
 	if !ok {
 		slip.TypePanic(s, depth, "symbol", args[0], "symbol")
 	}
+	// A package qualified symbol is looked up in that package the same way
+	// evaluating the symbol does, pkg:name for exported variables only and
+	// pkg::name for any variable of the package.
+	if pkg, name, private := unpackSymbol(sym); pkg != nil {
+		if vv := pkg.GetVarVal(name); vv != nil && (vv.Export || private) && slip.Unbound != vv.Value() {
+			return slip.True
+		}
+		return nil
+	}
 	if s.Bound(sym) {
 		return slip.True
 	}
 	return nil
+}
+
+// unpackSymbol separates a package qualified symbol into the package, the
+// name in that package, and a flag indicating the private separator (::) was
+// used. The package is nil if the symbol has no package qualifier or if the
+// qualifier does not name a package.
+func unpackSymbol(sym slip.Symbol) (pkg *slip.Package, name string, private bool) {
+	name = string(sym)
+	if i := strings.IndexByte(name, ':'); 0 < i && slip.FindPackage(name[:i]) != nil {
+		return slip.UnpackName(name)
+	}
+	return nil, name, false
 }
